@@ -677,6 +677,15 @@ def _flagstr(flags):
     return "|".join(nm for bit, nm in FLAG_NAMES if flags & bit) or "0"
 
 
+def _new_session():
+    """Pool workers and fuzz processes get their own session, as the driver's harness shards do (on hosts with
+    sched_autogroup a whole session shares one CPU slice, which starves a 16-process pool on a busy machine)."""
+    try:
+        os.setsid()
+    except OSError:
+        pass
+
+
 def _io_task(a):
     """One (round, shard): generate grammar cases, run the harness, judge its two logs."""
     exe, tier, seed, rnd, shard, nshards, workdir, ntexts = a
@@ -832,7 +841,7 @@ def stage_io(ctx, st):
     tasks = [(exe, tier, seed, rnd, sh, nshards, ctx["workdir"], ntexts) for rnd in range(rounds) for sh in range(nshards)]
     merged = driver.empty_result()
     try:
-        with ProcessPoolExecutor(max_workers=min(16, os.cpu_count() or 4)) as ex:
+        with ProcessPoolExecutor(max_workers=min(16, os.cpu_count() or 4), initializer=_new_session) as ex:
             for r in ex.map(_io_task, tasks):
                 driver.merge(merged, r)
     except OracleError as e:
@@ -864,7 +873,8 @@ def _fuzz_task(a):
     cmd = [exe, "-runs=%d" % runs, "-seed=%d" % (seed * 1000 + k + 1), "-max_len=%d" % (96 if k % 2 else 400), "-timeout=25",
            "-rss_limit_mb=3000", "-artifact_prefix=" + art, "-dict=" + dict_path, "-print_final_stats=1", "-verbosity=1", corpus]
     try:
-        p = subprocess.run(cmd, stdout=subprocess.PIPE, stderr=subprocess.STDOUT, env=env, cwd=workdir, timeout=9000)
+        p = subprocess.run(cmd, stdout=subprocess.PIPE, stderr=subprocess.STDOUT, env=env, cwd=workdir, timeout=9000,
+                           start_new_session=True)
         rc, text = p.returncode, p.stdout.decode(errors="replace")
     except subprocess.TimeoutExpired as e:
         rc, text = -9, (e.stdout or b"").decode(errors="replace") + "\n[fuzz] wall-clock watchdog"
@@ -886,7 +896,7 @@ def stage_fuzz(ctx, st):
     env.update(driver.SAN_ENV)
     tasks = [(exe, k, seed, runs, ctx["workdir"], env) for k in range(nproc)]
     res = driver.empty_result()
-    with ProcessPoolExecutor(max_workers=min(nproc, os.cpu_count() or 4)) as ex:
+    with ProcessPoolExecutor(max_workers=min(nproc, os.cpu_count() or 4), initializer=_new_session) as ex:
         outs = list(ex.map(_fuzz_task, tasks))
     total = 0
     for k, rc, text, arts in outs:
